@@ -39,9 +39,10 @@ BODY = etree.Element('body')
 DELIVERY_ERRORS = (HTTPReturnCodeError, ConnectionRefusedError, TimeoutError)
 
 A1, A2, A3 = 'http://x/y/Act1', 'http://x/y/Act2', 'http://x/y/Act3'
-# report actions: two literal filter entries, two proper suffixes of A1 (the library matches by suffix), one unrelated
-ACTIONS = (A1, A2, 'Act1', 'ttp://x/y/Act1', A3)
-FILTERS = ((A1,), (A2,), (A1, A2), (A3,), ())
+# report actions against the filter (A1, A2): literal first entry, literal second entry, a proper suffix of an entry (the
+# library matches by suffix), unrelated
+ACTIONS = (A1, A2, 'Act1', A3)
+FILTERS = ((A1, A2), ())
 NOTIFY = 'http://10.0.0.1:8000/notify'
 
 
@@ -136,7 +137,7 @@ def _check_delivery(orc, n_sent, posts, alive, closed, unsub, expired, failed, l
 
 
 def send_iff_alive(is_async: bool, closed: bool, errors: int, expire: int, started: int, now: int, dt: int, unsub: bool,
-                   fsel: int, asel: int, asel2: int, o1: int) -> str:
+                   empty_filter: bool, asel: int, asel2: int, o1: int) -> str:
     """
     Two consecutive reports to one subscription in an arbitrary lifetime state; the first delivery has outcome o1.
     pre: errors >= 0
@@ -144,9 +145,8 @@ def send_iff_alive(is_async: bool, closed: bool, errors: int, expire: int, start
     pre: started >= 0
     pre: now >= started
     pre: dt >= 0
-    pre: 0 <= fsel < 5
-    pre: 0 <= asel < 5
-    pre: 0 <= asel2 < 5
+    pre: 0 <= asel < 4
+    pre: 0 <= asel2 < 4
     pre: 0 <= o1 < 4
     post: __return__ == 'ok'
     """
@@ -154,9 +154,10 @@ def send_iff_alive(is_async: bool, closed: bool, errors: int, expire: int, start
     try:
         clock = env.install(env.FakeClock(now))
         pool = env.FakePool(is_async)
-        filt, action, action2 = pick(fsel, FILTERS), pick(asel, ACTIONS), pick(asel2, ACTIONS)
-        cls = sma.BicepsSubscriptionAsync if is_async else sms.BicepsSubscription
-        s = _mk_sub(cls, pool, filt, 7200)
+        filt, action, action2 = (FILTERS[1] if empty_filter else FILTERS[0]), pick(asel, ACTIONS), pick(asel2, ACTIONS)
+        cls = sma.BicepsSubscriptionAsync if bool(is_async) else sms.BicepsSubscription
+        with untraced():     # concrete inputs only
+            s = _mk_sub(cls, pool, filt, 7200)
         s._is_closed = closed
         s.notify_errors = errors
         s._expire_seconds = expire
@@ -166,7 +167,7 @@ def send_iff_alive(is_async: bool, closed: bool, errors: int, expire: int, start
         # ---- report 1
         fails = errors
         alive = (not closed) and (not unsub) and now - started < expire and fails < lim
-        pool.outcome = pick(o1, env.OUTCOMES)
+        pool.outcome = o1      # resolved by the fake client when (and only if) a message is handed over
         _deliver(s, is_async, action)
         n1 = len(pool.log)
         _check_delivery(orc, n1, pool.log, alive, closed, unsub, now - started >= expire, fails >= lim,
@@ -186,12 +187,13 @@ def send_iff_alive(is_async: bool, closed: bool, errors: int, expire: int, start
     return orc.result()
 
 
-def filter_match(f0: str, f1: str, two: bool, action: str) -> str:
+def filter_match(f0: str, f1: str, two: bool, action: str, maxlen: int) -> str:
     """
     Filter sandwich on symbolic strings: literal membership => match => some entry ends with the (stripped) action.
-    pre: 1 <= len(f0) <= 3
-    pre: 1 <= len(f1) <= 3
-    pre: len(action) <= 3
+    pre: 1 <= len(f0) <= maxlen
+    pre: 1 <= len(f1) <= maxlen
+    pre: len(action) <= maxlen
+    pre: 1 <= maxlen <= 3
     post: __return__ == 'ok'
     """
     orc = Oracle()
@@ -199,7 +201,8 @@ def filter_match(f0: str, f1: str, two: bool, action: str) -> str:
         if f0 != ''.join(f0.split()) or f1 != ''.join(f1.split()):
             return 'ok'   # filter entries are produced by str.split(): they never contain white space
         env.install(env.FakeClock(0))
-        s = _mk_sub(sms.BicepsSubscription, env.FakePool(), (A1,), 7200)
+        with untraced():     # concrete inputs only
+            s = _mk_sub(sms.BicepsSubscription, env.FakePool(), (A1,), 7200)
         s.actions_filter = [f0, f1] if two else [f0]
         m = s.matches(action)
         orc.check(m or action not in s.actions_filter, 'literal_filter_entry_not_matched')
@@ -461,14 +464,16 @@ def _history(mk, pre, steps, zombies):
     return orc.result()
 
 
-def _sel_step(op, t, p, q, nt):
-    """Resolve the selectors of one step by explicit branching; only those the operation uses are evaluated."""
+def _sel_step(op, t, p, q, nt, slim):
+    """Resolve the selectors of one step by explicit branching; only those the operation uses are evaluated.
+    slim: requested durations only {absent, 5 s} (the 9999 s > max request is left to the histories run with slim False)."""
     op = pick(op, tuple(range(8)))
     t_, p_, q_ = 0, 0, 0
+    durs = (0, 1) if slim else (0, 1, 2)
     if op == OP_SUBSCRIBE:
-        t_, p_ = pick(t, (0, 1)), pick(p, (0, 1, 2))
+        t_, p_ = pick(t, (0, 1)), pick(p, durs)
     elif op == OP_RENEW:
-        t_, p_ = pick(t, tuple(range(nt))), pick(p, (0, 1, 2))
+        t_, p_ = pick(t, tuple(range(nt))), pick(p, durs)
     elif op in (OP_STATUS, OP_UNSUB):
         t_ = pick(t, tuple(range(nt)))
     elif op == OP_REPORT:
@@ -480,13 +485,17 @@ def _sel_step(op, t, p, q, nt):
     return op, t_, p_, q_
 
 
-def mgr_history(mk: int, pre: int, n: int, nt: int, zombies: bool,
+MKSETS = ((0, 1, 2, 3), (0, 3), (1, 2))
+
+
+def mgr_history(mkset: int, mk: int, pre: int, n: int, nt: int, zombies: bool, slim: bool,
                 op1: int, t1: int, p1: int, q1: int, op2: int, t2: int, p2: int, q2: int,
                 op3: int, t3: int, p3: int, q3: int) -> str:
     """
-    Pre-state PRE[pre], then n <= 3 arbitrary steps. nt: number of request targets (3: #0, #1, never issued id; 4: + no id at all).
+    Manager kind MGRS[mk] (mk beyond the pool MKSETS[mkset] means its last entry), pre-state PRE[pre], then n <= 3 arbitrary steps. nt: number of request targets (3: #0, #1, never issued id; 4: + no id at all).
     zombies False: the history is cut before a step that addresses an unsubscribed, not yet collected subscription (those
     histories are the subject of the obligations run with zombies True).
+    pre: 0 <= mkset < 3
     pre: 0 <= mk < 4
     pre: 0 <= pre < 6
     pre: 1 <= n <= 3
@@ -505,12 +514,12 @@ def mgr_history(mk: int, pre: int, n: int, nt: int, zombies: bool,
     pre: 0 <= q3 < 4
     post: __return__ == 'ok'
     """
-    mk, pre = pick(mk, (0, 1, 2, 3)), pick(pre, tuple(range(len(PRE))))
-    n, nt, zombies = pick(n, (1, 2, 3)), pick(nt, (3, 4)), bool(zombies)
-    steps = [_sel_step(op1, t1, p1, q1, nt)]
+    mk, pre = pick(mk, pick(mkset, MKSETS)), pick(pre, tuple(range(len(PRE))))
+    n, nt, zombies, slim = pick(n, (1, 2, 3)), pick(nt, (3, 4)), bool(zombies), bool(slim)
+    steps = [_sel_step(op1, t1, p1, q1, nt, slim)]
     if n >= 2:
-        steps.append(_sel_step(op2, t2, p2, q2, nt))
+        steps.append(_sel_step(op2, t2, p2, q2, nt, slim))
     if n >= 3:
-        steps.append(_sel_step(op3, t3, p3, q3, nt))
+        steps.append(_sel_step(op3, t3, p3, q3, nt, slim))
     with untraced():
         return _history(mk, pre, steps, zombies)
